@@ -26,12 +26,14 @@ import (
 	"sort"
 	"strings"
 	"sync/atomic"
+	"time"
 
 	"github.com/safing/portbase/database/query"
 	"github.com/safing/portbase/database/record"
 	"github.com/safing/portbase/database/storage"
 	"github.com/safing/portbase/database/storage/fstree"
 	"github.com/safing/portbase/formats/dsd"
+	"github.com/safing/portbase/log"
 	"github.com/safing/portbase/updater"
 	"github.com/safing/portbase/utils"
 
@@ -61,6 +63,18 @@ func initScratch() {
 			}
 		}
 	}
+	// leftovers of killed runs / replays (older than 3 hours)
+	if ents, err := os.ReadDir(base); err == nil {
+		for _, en := range ents {
+			if strings.HasPrefix(en.Name(), "verif-c18.") {
+				if info, err := en.Info(); err == nil && time.Since(info.ModTime()) > 3*time.Hour {
+					_ = os.RemoveAll(filepath.Join(base, en.Name()))
+				}
+			}
+		}
+	}
+	// the updater logs through portbase/log, which parks one goroutine per line until log.Start(): only keep critical lines
+	log.SetLogLevel(log.CriticalLevel)
 	d, err := os.MkdirTemp(base, "verif-c18.")
 	must(err)
 	d, err = filepath.EvalSymlinks(d)
